@@ -106,16 +106,26 @@ CfgPositions == {"root.all", "root.dir", "root.filename", "root.pkgname", "root.
                 \cup \* every key of the built-in templates' schema at every level
                 {l \o ".template-data." \o k : l \in {"root", "pkg.config", "iface.config", "entry"},
                                                 k \in {"unroll-variadic", "boilerplate-file", "mock-build-tags"}}
+\* the map-valued parameters, at every level and every depth of nesting
+ConfigLevels == {"root", "pkg.config", "iface.config", "entry"}
+MapPositions == {l \o sfx : l \in ConfigLevels, sfx \in {".replace-type", ".replace-type.pkg", ".replace-type.pkg.type", ".template-data"}}
+                \cup {"root._anchors"}
 ValueKinds == {"null", "string", "empty-string", "int", "float", "bool", "empty-list", "list-of-strings", "list-of-null",
                "empty-map", "map", "nested-map", "templated-string"}
 FuzzAll == {[kind |-> "cfgfuzz", decls |-> <<"iface">>, select |-> "all", spelling |-> "plain", layout |-> "sep", shape |-> "-", ctx |-> "-",
-             pos |-> p, val |-> v] : p \in CfgPositions, v \in ValueKinds}
+             pos |-> p, val |-> v, other |-> "-"] : p \in CfgPositions \cup MapPositions, v \in ValueKinds}
+\* LEVEL CROSSING for the map-valued parameters: the odd value at one level WHILE the levels above (resp. below) hold a
+\* conforming non-empty value for the same key -- the merge of the levels meets null / empty / non-empty on either side
+FuzzCross == {[kind |-> "cfgfuzz", decls |-> <<"iface">>, select |-> "all", spelling |-> "plain", layout |-> "sep", shape |-> "-", ctx |-> "-",
+               pos |-> p, val |-> v, other |-> o] :
+                p \in MapPositions, v \in {"null", "empty-map", "map", "list-of-null"}, o \in {"higher-nonempty", "lower-nonempty"}}
 FuzzWorld(p, v) == [kind |-> "cfgfuzz", decls |-> <<"iface">>, select |-> "all", spelling |-> "plain", layout |-> "sep", shape |-> "-", ctx |-> "-",
-                    pos |-> p, val |-> v]
+                    pos |-> p, val |-> v, other |-> "-"]
 \* quick: every position with one value kind drawn at random, and every value kind at NFuzz positions drawn at random
-CfgFuzzWorlds == IF NFuzz = 0 THEN FuzzAll
-                 ELSE {FuzzWorld(p, RandomElement(ValueKinds)) : p \in CfgPositions}
-                      \cup UNION {{FuzzWorld(p, v) : p \in RandomSubset(NFuzz, CfgPositions)} : v \in ValueKinds}
+CfgFuzzWorlds == FuzzCross \cup
+                 IF NFuzz = 0 THEN FuzzAll
+                 ELSE {FuzzWorld(p, RandomElement(ValueKinds)) : p \in CfgPositions \cup MapPositions}
+                      \cup UNION {{FuzzWorld(p, v) : p \in RandomSubset(NFuzz, CfgPositions \cup MapPositions)} : v \in ValueKinds}
 \* the configuration FILE as text: not YAML at all, YAML of the wrong shape, odd but legal encodings
 CfgTextShapes == {"tabs-indent", "duplicate-keys", "empty-file", "only-comment", "garbage", "list-at-top", "scalar-at-top", "bom",
                   "crlf", "undefined-alias", "multi-document", "deep-nesting", "nul-byte", "huge-scalar", "recursive-alias"}
